@@ -396,6 +396,12 @@ class MinMaxAggregator:
 
         # 1. create a new domain for the complete elem.condition + lits_with_vars
         new_name = f"__{direction}_{number_of_aggregate}_{str(rule.location.begin.line)}"
+        # several aggregates can share a source line (or the name may be taken), keep the name unique
+        base_name = new_name
+        counter = 0
+        while any(pred.name == new_name for pred in self.unique_names.predicates):
+            counter += 1
+            new_name = f"{base_name}_{counter}"
         new_predicate = Predicate(new_name, 1)
 
         head = SymbolicAtom(Function(LOC, new_name, [weight], False))
@@ -430,6 +436,8 @@ class MinMaxAggregator:
             )
             return [rule]
 
+        self.unique_names.predicates.add(new_predicate)
+        self.unique_names.predicates.add(Predicate(new_name, len(rest_vars_sorted) + 1))
         ret = self._create_aggregate_replacement(agg, elem, rest_vars_sorted, new_predicate, lits_with_vars)
 
         # 3. replace original rule or minimize
